@@ -141,6 +141,16 @@ Proof.
 Qed.
 Print Assumptions C15_fresh_handle_is_admissible.
 
+(* the several-accumulator world with long-lived AccumulatorObject handles (the model that the correspondence run
+   compares with the Go package) stays inside [hist]: after any sequence of world calls in which every call's
+   receiver - the stored handle or a freshly fetched one - is admissible and the arguments are in the domain, every
+   accumulator is either not yet made or the end state of some history, so all theorems above apply to it *)
+Theorem C15_world_stays_in_hist : forall ops, wadmissible_all init_world ops ->
+  forall a, acc_get a (w_accs (wrun init_world ops)) = empty_astore \/
+            exists tr, hist tr (acc_get a (w_accs (wrun init_world ops))).
+Proof. intros ops H; exact (wrun_wgood ops init_world init_wgood H). Qed.
+Print Assumptions C15_world_stays_in_hist.
+
 (* the whole property in one statement *)
 Definition C15_full : Prop := forall tr st, hist tr st ->
   (exists c, a_content st = Some c /\ c_total c = sum_shares (a_pos st)) /\
@@ -200,4 +210,22 @@ Proof.
   split; [eapply fresh_recv_ok; exact Hh|].
   split; [vm_compute; reflexivity|]. split; [vm_compute; reflexivity|]. split; [vm_compute; reflexivity|].
   split; [right; right; vm_compute; reflexivity|]. vm_compute. discriminate.
+Qed.
+
+(* non-vacuity of the world theorem with a stale handle: handle 0 creates name 1 (5 shares), handle 1 creates name 2
+   (3 shares), then handle 0 - whose copy of the total still says 5 - adds 2 shares to name 1: admissible, because
+   the code re-reads the total from the store; the recorded total is 10 *)
+Definition nv_wops : list wop :=
+  [ WMake 0 false; WOp 0 0 true (ONew 1 (5 * P18)); WOp 0 1 true (ONew 2 (3 * P18)); WOp 0 0 false (OAdd 1 (2 * P18)) ].
+Example C15_world_nonvacuous :
+  wadmissible_all init_world nv_wops /\
+  option_map v_total (h_get 0 0 (w_handles (wrun init_world (firstn 3 nv_wops)))) = Some (5 * P18) /\
+  option_map c_total (a_content (acc_get 0 (w_accs (wrun init_world (firstn 3 nv_wops))))) = Some (8 * P18) /\
+  option_map c_total (a_content (acc_get 0 (w_accs (wrun init_world nv_wops)))) = Some (10 * P18).
+Proof.
+  split; [|repeat split; vm_compute; reflexivity].
+  cbn [nv_wops wadmissible_all]. split; [exact I|]. split; [|split; [|split; [|exact I]]].
+  all: intros rv H; vm_compute in H; injection H as <-; split;
+    [eexists; split; [vm_compute; reflexivity|split; intros K; vm_compute in K |- *; first [reflexivity|discriminate K]]
+    |vm_compute; repeat split; auto; discriminate].
 Qed.
